@@ -29,6 +29,7 @@ type MsgOpts struct {
 	ManyHdrs    bool // 10..50 additional header lines (long header blocks)
 	ManyMax     int  // upper bound for ManyHdrs (0: 50)
 	Canonical   bool // first lines exactly as RFC 3261 writes them: version "SIP/2.0", status 100..699
+	VerCase     bool // with Canonical: the version of a reply may still vary in letter case (a reply in any case: C08)
 }
 
 type hdrKind struct {
@@ -168,7 +169,7 @@ func (g *G) Msg(o MsgOpts) MsgSpec {
 			st[g.R.Intn(3)] = ":;A/ z~"[g.R.Intn(7)]
 		}
 		ver := g.R.Pick([]string{"SIP/2.0", "SIP/2.0", "sip/2.0", "Sip/2.0"})
-		if o.Canonical {
+		if o.Canonical && !o.VerCase {
 			ver = "SIP/2.0"
 		}
 		m.FLine = ver + " " + string(st) + " " + reason
@@ -258,7 +259,7 @@ func (g *G) Msg(o MsgOpts) MsgSpec {
 				name = g.R.Pick([]string{"Subject", "Allow", "Supported", "Content-Type", "Froms", "Tos", "Vias", "Contacts", "Call-IDs", "Content-Lengths", "Rout", "Expire"})
 			}
 			val := g.Generic()
-			if g.R.Chance(1, 400) {
+			if g.R.Chance(1, 150) {
 				// a very long header line (longer than any small buffer constant)
 				val = g.alnum(1, 8) + " " + strings.Repeat(g.alnum(8, 8)+" ", g.R.PickInt(130, 520, 1030, 1100, 2100)) + "end"
 			}
